@@ -71,6 +71,13 @@ pub fn check_case(c: &GenCase, obs: &mut Obs) -> Result<(), String> {
     let x: HashSet<String> = c.exceptions.iter().cloned().collect();
     let got: BTreeSet<String> = e.hidden_class_id_selectors(&c.classes, &c.ids, &x).into_iter().collect();
     obs.inner_evals += 1;
+    // the same lookup on an engine loaded from the serialized rules
+    let mut e_rt = adblock::Engine::new(true);
+    e_rt.deserialize(&e.serialize_raw().map_err(|x| format!("serialize: {:?}", x))?).map_err(|x| format!("deserialize of own bytes: {:?}", x))?;
+    let got_rt: BTreeSet<String> = e_rt.hidden_class_id_selectors(&c.classes, &c.ids, &x).into_iter().collect();
+    if got_rt != got {
+        return Err(format!("hidden_class_id_selectors(classes {:?}, ids {:?}, exceptions {:?}) = {:?} on the built engine but {:?} on the engine loaded from its serialized bytes; rules {:?}", c.classes, c.ids, c.exceptions, got, got_rt, lines));
+    }
     // expected: selectors whose unescaped leading class/id is among the given names, minus exceptions.
     // A simple rule without escapes is returned as ".name"/"#name"; everything else as written.
     let mut want: BTreeSet<String> = BTreeSet::new();
@@ -278,7 +285,7 @@ pub fn decode(t: &mut Tape) -> GenCase {
 }
 
 pub fn check(ctx: &mut Ctx) {
-    ctx.rule = "1-8 generic rules '##SEL' (1/10 written as '~neg.example##SEL'): SEL = '.ident' / '#ident' with ident from the CSS identifier grammar (plain, non-ASCII, backslash-escaped punctuation, hex escapes of 1-6 digits with/without the terminating space, upper/lower-case digits) followed by nothing (simple) or a compound/descendant/list tail (complex, often sharing its key with a simple rule; 1 case in 12 adds a family of 2-90 complex rules under one key), or a selector starting with neither; class/id query sets = the unescaped names of a subset of the rules + near misses (escaped spelling, prefix, suffix, case, other namespace); exception sets drawn from the rules' selectors. Oracle: identifiers are generated together with their unescaped value; expected lookup result = selectors whose unescaped key is queried, minus exceptions; partition: each selector is served by exactly one of hidden_class_id_selectors(own key) and url_cosmetic_resources(..).hide_selectors. Non-trivial = a rule with an escape, or a complex rule sharing its key with a simple one.".into();
+    ctx.rule = "1-8 generic rules '##SEL' (1/10 written as '~neg.example##SEL'): SEL = '.ident' / '#ident' with ident from the CSS identifier grammar (plain, non-ASCII, backslash-escaped punctuation, hex escapes of 1-6 digits with/without the terminating space, upper/lower-case digits) followed by nothing (simple) or a compound/descendant/list tail (complex, often sharing its key with a simple rule; 1 case in 12 adds a family of 2-90 complex rules under one key), or a selector starting with neither; class/id query sets = the unescaped names of a subset of the rules + near misses (escaped spelling, prefix, suffix, case, other namespace); exception sets drawn from the rules' selectors. Oracle: identifiers are generated together with their unescaped value; expected lookup result = selectors whose unescaped key is queried, minus exceptions (asked of the built engine and of an engine loaded from its serialized bytes); partition: each selector is served by exactly one of hidden_class_id_selectors(own key) and url_cosmetic_resources(..).hide_selectors. Non-trivial = a rule with an escape, or a complex rule sharing its key with a simple one.".into();
     ctx.assumptions = vec!["NUL, surrogate and out-of-range code points are not generated (CSS maps them to U+FFFD; the library drops such rules)".into()];
     let n = ctx.tier.pick(2_000_000, 12_000_000);
     drive(ctx, "generic", n, 200, &decode, &check_case);
